@@ -11,9 +11,12 @@
      kind "corrupt" the same, where N/P/S/I describe the document WITHOUT the one malformed attribute that the XML
                     actually read carried: the observation must be that of the document without it, and the reader
                     must have logged (logs > logs_base, logs_base = count for the XML without the attribute)
-     kind "unknown" the same for an attribute that is not in the vocabulary: meaning unchanged (no log demanded)
-     kind "forms"   prop, items = sequence of [form, crashed, tok, logs] : equivalent legal lexical forms of one
-                    value read from one element; tok = token of the computed value ("-" when absent)
+     kind "unknown_tt" the same for an attribute that is not in the vocabulary but in a TT namespace (or in none): meaning
+                    unchanged and logged;  kind "unknown": an attribute in a foreign namespace: meaning unchanged (TTML allows
+                    foreign attributes: no log demanded, counted)
+     kind "forms"   prop, distinct, items = sequence of [form, crashed, tok, logs] : legal lexical forms read from one
+                    element; tok = token of the computed value ("-" when absent); distinct = 0: the forms are equivalent
+                    (same token demanded), distinct = 1: forms 2.. denote values different from form 1
    Verdicts: <<"FAIL", record index, time index, clause, detail>>; <<"SKIP", record index, why>> for records outside
    the domain of the timing clauses; <<"DONE", n>> when everything is consumed.                                      *)
 EXTENDS Imsc, Json, IOUtils, TLCExt
@@ -78,8 +81,10 @@ CheckDoc(r, rec) ==
       ELSE IF rec.crashed = 2 THEN Fail(r, 0, "snapshot_crashed", "")
       ELSE /\ (\A j \in 1..Len(rec.T) : CheckTime(r, rec, N, iv, spec, j))
            /\ IF rec.kind = "corrupt" THEN Chk(rec.logs > rec.logs_base, r, 0, "ignored_attribute_not_logged", "") ELSE TRUE
-           \* foreign attributes are legal in TTML: no report is demanded for an attribute outside the vocabulary, it is counted
-           /\ IF rec.kind = "unknown" /\ rec.logs <= rec.logs_base THEN PrintT(<<"NOTE", r, "unknown_attribute_not_reported">>) ELSE TRUE
+           \* an unknown attribute in a TT namespace (or without namespace) must be reported; attributes in foreign namespaces
+           \* are legal in TTML: no report is demanded, they are counted
+           /\ IF rec.kind = "unknown_tt" THEN Chk(rec.logs > rec.logs_base, r, 0, "unknown_attribute_not_logged", "") ELSE TRUE
+           /\ IF rec.kind = "unknown" /\ rec.logs <= rec.logs_base THEN PrintT(<<"NOTE", r, "foreign_attribute_not_reported">>) ELSE TRUE
 
 CheckForms(r, rec) ==
   LET it == rec.items IN
@@ -91,7 +96,9 @@ CheckForms(r, rec) ==
            ELSE TRUE
   /\ \A k \in 2..Len(it) :
         IF it[k].crashed = 0 /\ it[1].crashed = 0 /\ it[k].tok # "-" /\ it[1].tok # "-"
-        THEN Chk(it[k].tok = it[1].tok, r, k, "equivalent_forms_differ", it[k].form)
+        THEN IF rec.distinct = 0
+             THEN Chk(it[k].tok = it[1].tok, r, k, "equivalent_forms_differ", it[k].form)
+             ELSE Chk(it[k].tok # it[1].tok, r, k, "distinct_forms_equal", it[k].form)
         ELSE TRUE
 
 CheckRec(r) == IF Recs[r].kind = "forms" THEN CheckForms(r, Recs[r]) ELSE CheckDoc(r, Recs[r])
